@@ -262,6 +262,9 @@ pub struct Streams {
     pub wrs: HashMap<u64, Wr>,
 }
 
+pub fn tmpfile_pub() -> std::fs::File {
+    tmpfile()
+}
 fn tmpfile() -> std::fs::File {
     // anonymous temporary file (unlinked immediately)
     let dir = std::env::temp_dir();
